@@ -204,7 +204,7 @@ Eval(q, db) ==
 (***************************************************************************)
 (* MECHANISM.                                                              *)
 (***************************************************************************)
-AllFlags == {"where", "emptywhere", "prec", "intersect", "chain3", "tagsv2", "attrless_le"}
+AllFlags == {"where", "emptywhere", "prec", "intersect", "chain3", "tagsv2", "attrless_le", "distinct"}
 
 \* parser (model_v2.go): `Head AndOr Tail` is right recursive and has no operator
 \* priorities, so a flat text  x && y || z  becomes  x && (y || z).           [prec]
@@ -278,8 +278,10 @@ MechSelector(sel, q, db, F) ==
   IN [err |-> NoErr, P |-> P, ms |-> ms, key |-> K1(db, ms)]
 
 \* attrless.go ({}): trace ids of the `limit` newest spans with from <= ts <= to (sic), then
-\* their spans inside [from, to).  DISTINCT is applied before ORDER BY, so the instant
-\* that ranks a trace is the timestamp of ANY of its candidate spans.       [attrless_le]
+\* their spans inside [from, to).                                          [attrless_le]
+\* SELECT DISTINCT trace_id ... ORDER BY timestamp_ns DESC LIMIT n: DISTINCT is applied before
+\* ORDER BY, so the instant that ranks a trace is the timestamp of ANY of its candidate
+\* spans (whichever row survives DISTINCT), not of its newest one.            [distinct]
 MechAttrless(q, db, F) ==
   LET cand(ti) == {si \in Spans(db, ti) : q.from <= db[ti][si].ts /\
                      (IF "attrless_le" \in F THEN db[ti][si].ts <= q.to ELSE db[ti][si].ts < q.to)}
@@ -287,7 +289,8 @@ MechAttrless(q, db, F) ==
       n == IF Cardinality(C) < q.limit THEN Cardinality(C) ELSE q.limit
       choices == {S \in SUBSET C : /\ Cardinality(S) = n
                      /\ \E pick \in [C -> UNION {{db[ti][si].ts : si \in Spans(db, ti)} : ti \in C}] :
-                          /\ \A ti \in C : pick[ti] \in {db[ti][si].ts : si \in cand(ti)}
+                          /\ \A ti \in C : IF "distinct" \in F THEN pick[ti] \in {db[ti][si].ts : si \in cand(ti)}
+                                             ELSE pick[ti] = MaxOf({db[ti][si].ts : si \in cand(ti)})
                           /\ \A x \in S, y \in C \ S : pick[x] >= pick[y]}
       msOf(S) == [ti \in Traces(db) |-> IF ti \in S THEN {si \in Spans(db, ti) : InWindow(db[ti][si], q)} ELSE {}]
   IN {[P |-> {ti \in S : msOf(S)[ti] # {}}, ms |-> msOf(S)] : S \in choices}
@@ -356,20 +359,20 @@ PlanEval(q, db, F) ==
                     IN {MechFinal(c.P, c.ms, c.key, q, db)}
 
 (***************************************************************************)
-(* COMPARISON.  An outcome o conforms to the definition d iff it is not an *)
-(* error, keeps the same traces, reports the matched spans (one selector:  *)
-(* exactly; several selectors: some of the spans matched by the selectors  *)
-(* that keep the trace, at least one) and every order it can return is     *)
-(* acceptable.                                                             *)
+(* COMPARISON, on what a client can observe: the sequence of traces in the *)
+(* answer and the spans reported for each of them.  An outcome o conforms  *)
+(* to the definition d iff it is not an error, every sequence it can       *)
+(* return is acceptable, and for every returned trace the matched spans    *)
+(* are right (one selector: exactly; several selectors: some of the spans  *)
+(* matched by the selectors that keep the trace, at least one).            *)
 (***************************************************************************)
 Conforms(o, d, q, db) ==
   /\ o.err = NoErr
-  /\ o.M = d.M
   /\ o.strs = d.strs
-  /\ \A ti \in Traces(db) :
-        IF Len(q.sels) = 1 THEN o.ms[ti] = d.ms[ti]
-        ELSE (ti \in d.M => o.ms[ti] # {}) /\ o.ms[ti] \subseteq d.ms[ti]
   /\ o.seqs \subseteq d.seqs
+  /\ \A p \in o.seqs : \A i \in DOMAIN p :
+        IF Len(q.sels) = 1 THEN o.ms[p[i]] = d.ms[p[i]]
+        ELSE o.ms[p[i]] # {} /\ o.ms[p[i]] \subseteq d.ms[p[i]]
 
 ConformsAll(O, d, q, db) == \A o \in O : Conforms(o, d, q, db)
 
@@ -383,7 +386,7 @@ Applicable(q) ==
      \cup (IF \E sel \in S : sel.sh \in {"ao", "flat4", "flat4b"} THEN {"prec"} ELSE {})
      \cup (IF \E sel \in S : sel.sh # "empty" /\ WhereEmpty(sel) THEN {"emptywhere"} ELSE {})
      \cup (IF \E sel \in S : hasDur(sel) THEN {"where"} ELSE {})
-     \cup (IF \E sel \in S : sel.sh = "empty" THEN {"attrless_le"} ELSE {})
+     \cup (IF \E sel \in S : sel.sh = "empty" THEN {"attrless_le", "distinct"} ELSE {})
 
 \* the smallest set of deviation rules that has to be switched off to make the plan conform
 ExplainWith(q, db, d) ==
